@@ -178,7 +178,7 @@ func check(c Case, r rx.Response, ri int, ro rx.RoundObs, nEED, nEnv int, psize 
 		}
 	}
 	// callback failure: error matches and carries the messages received so far
-	if c.Beh == "until-err" && ro.Ret != "" {
+	if (c.Beh == "until-err" || c.Beh == "until-errw") && ro.Ret != "" {
 		var ne []int // arrival index of non-special packages
 		for i, p := range r.Pkgs {
 			switch x := p.(type) {
@@ -377,7 +377,7 @@ func main() {
 						h.Section("two-specials-1cut", 1)
 					}
 					// sweep B: callback outcomes, one packet and one package per packet
-					for _, beh := range []string{"until-err", "until-true", "until-eof", "nil-callback"} {
+					for _, beh := range []string{"until-err", "until-errw", "until-true", "until-eof", "nil-callback"} {
 						for j := 0; j < 3; j++ {
 							if beh == "nil-callback" && j > 0 {
 								continue
